@@ -35,10 +35,15 @@ CONFIGS = {
     'type-first': "dict(claw_decor_place_type=BeartypeDecorPlace.FIRST)",
     'viol-exc': "dict(violation_type=MyViolation)",
     'viol-warn': "dict(violation_type=MyWarning)",
+    # strategies: O0 disables every check (the module may as well be compiled untransformed - but then not under
+    # the marker that a checking configuration reuses)
+    'strategy-O0': "dict(strategy=BeartypeStrategy.O0)",
+    'strategy-On': "dict(strategy=BeartypeStrategy.On)",
+    'tower': "dict(is_pep484_tower=True)",
 }
 # options that shape the compiled AST (the others are looked up at run time)
 AST_SHAPE = {'off': 'off', 'default': 'd', 'no526': 'no526', 'func-first': 'ff', 'func-last': 'd', 'type-first': 'tf',
-             'viol-exc': 'd', 'viol-warn': 'd'}
+             'viol-exc': 'd', 'viol-warn': 'd', 'strategy-O0': 'd', 'strategy-On': 'd', 'tower': 'd'}
 # ... and every combination of the three AST-shaping options (two non-default configurations that differ in one of
 # them only must not share a cache file either).  For this module (no decorator-hostile decorators) LAST and
 # LAST_BEFORE_DECOR_HOSTILE place alike, so the shape keeps FIRST / not-FIRST only.
@@ -101,7 +106,7 @@ class MyViolation(Exception): pass
 class MyWarning(UserWarning): pass
 conf_src = {conf!r}
 if conf_src is not None:
-    from beartype import BeartypeConf, BeartypeDecorPlace
+    from beartype import BeartypeConf, BeartypeDecorPlace, BeartypeStrategy
     from beartype.claw import beartype_package
     beartype_package({pkg!r}, conf=BeartypeConf(**eval(conf_src)))
 import importlib
